@@ -124,3 +124,25 @@ func (x *Exec) mapGuard(m Term) *guardInfo {
 	}
 	return x.guardProv[m.S]
 }
+
+// mapGuardT: the guard of map m of Go type t - the guarded field it was read from, or, failing that, a type-level
+// declaration "guarded[tags] map <type> by <package-level mutex>": every map of that type that the function did not
+// create itself is shared between goroutines and may be touched only with that mutex held.
+func (x *Exec) mapGuardT(st *State, m Term, t types.Type) *guardInfo {
+	if g := x.mapGuard(m); g != nil {
+		return g
+	}
+	if x.C == nil || len(x.C.GuardedMaps) == 0 {
+		return nil
+	}
+	gd := x.C.GuardedMaps[typeName(t)]
+	if gd == nil {
+		return nil
+	}
+	lock := x.declare("addr.global."+sanitize(gd.LockPkg+"."+gd.Lock), SInt)
+	entry := st.wm
+	if x.entryWM.S != "" {
+		entry = x.entryWM
+	}
+	return &guardInfo{lock: lock, obj: m, tags: gd.Tags, what: "a " + typeName(t) + " (guarded by " + gd.Lock + ")", entry: entry}
+}
